@@ -47,9 +47,13 @@ def check_cost(rep, run: Run, D: Blocks, rule="BN-COST", cross=cross_spec, diag=
     for role, name in (("diagA", run.a), ("diagB", run.b)):
         ss = roles.get(role, [])
         if not ss:
-            # a diagonal block fed from the wrong diagram shows up under the other role or as 'other'
-            rep.refuted(rule, fi, fi.node, f"no diagonal-cost block is built from diagram `{name}` alone",
-                        construct=f"{fi.qualname}: diagonal block of {name}")
+            # definite only when both diagonal blocks are fed from the other diagram; anything else is not understood
+            other_role = "diagB" if role == "diagA" else "diagA"
+            if len(roles.get(other_role, [])) >= 2:
+                rep.refuted(rule, fi, fi.node, f"no diagonal-cost block is built from diagram `{name}`: both are built from the "
+                                               f"other diagram", construct=f"{fi.qualname}: diagonal block of {name}")
+            else:
+                rep.unmodelled(rule, fi, fi.node, f"diagonal-cost block of diagram `{name}` not recognised")
             continue
         for s in ss:
             v = s["val"]
